@@ -42,24 +42,34 @@ impl Out {
 pub enum DirV {
     Db,
     Immutable,
+    /// the parent of the database directory: `<db>/immutable` is then found by the directory walk
+    Parent,
 }
 
 impl DirV {
     pub const ALL: [DirV; 2] = [DirV::Db, DirV::Immutable];
+    /// part A also hands in the parent directory (it holds `db/` and the harness' cache directory)
+    pub const LAYOUTS: [DirV; 3] = [DirV::Db, DirV::Immutable, DirV::Parent];
     pub fn path(self, db: &Path) -> PathBuf {
         match self {
             DirV::Db => db.to_path_buf(),
             DirV::Immutable => db.join("immutable"),
+            DirV::Parent => db.parent().expect("db has a parent").to_path_buf(),
         }
     }
     pub fn name(self) -> &'static str {
         match self {
             DirV::Db => "db-dir",
             DirV::Immutable => "immutable-dir",
+            DirV::Parent => "parent-of-db-dir",
         }
     }
     pub fn parse(s: &str) -> DirV {
-        if s == "immutable-dir" { DirV::Immutable } else { DirV::Db }
+        match s {
+            "immutable-dir" => DirV::Immutable,
+            "parent-of-db-dir" => DirV::Parent,
+            _ => DirV::Db,
+        }
     }
 }
 
